@@ -594,7 +594,7 @@ def check():
     # ---------------------------------------------------------------- replay on the real binaries
     import lspcorpus
     rdir = new_replay_dir("C08", "binding")
-    wanted = {k: v for k, v in lspcorpus.PROGRAMS.items() if k in ("nested-same-name-binders", "shadowing-and-reference", "unqualified-import", "two-modules")}
+    wanted = {k: v for k, v in lspcorpus.PROGRAMS.items() if k in ("nested-same-name-binders", "shadowing-and-reference", "unqualified-import", "two-modules", "modules-in-sub-directories")}
     saved = lspcorpus.PROGRAMS
     lspcorpus.PROGRAMS = wanted
     try:
